@@ -14,6 +14,10 @@ import JsonV.Lemmas.PointerEsc
 import JsonV.Lemmas.PointerOps
 import JsonV.Lemmas.PointerValid
 import JsonV.Lemmas.PointerStack
+import JsonV.Lemmas.PointerUtf8
+import JsonV.Lemmas.PointerSim
+import JsonV.Lemmas.PointerMachine
+import JsonV.Lemmas.PositionTok
 
 namespace JsonV.Props.C16
 open JsonV JsonV.Model JsonV.Model.Pointer JsonV.Spec.Pointer JsonV.Lemmas.Pointer
@@ -86,6 +90,21 @@ theorem rebuild_valid (p : Bytes) (h : isValid p = true) (hs : (tokens p).map sa
     (tokens p).foldl appendToken [] = p := by
   rw [foldl_appendToken, List.nil_append, hs, ← Lemmas.Pointer.isValid_render p h]
 
+/-- Go's `range`/`AppendRune` round trip is the identity on well-formed UTF-8 (`utf8.Valid`), so every
+`sanitize` above disappears for the names a decoder or encoder accepts by default. -/
+theorem sanitize_valid (t : Bytes) (h : Utf8.valid t = true) : sanitize t = t := Lemmas.Pointer.sanitize_valid t h
+
+/-- `LastToken (AppendToken p t) = t` for well-formed UTF-8 tokens (DESIGN.md's `ptr_roundtrip`). -/
+theorem ptr_roundtrip_valid (p t : Bytes) (h : Utf8.valid t = true) :
+    lastToken (appendToken p t) = t ∧ parent (appendToken p t) = p := by
+  have := ptr_roundtrip p t
+  rwa [Lemmas.Pointer.sanitize_valid t h] at this
+
+/-- `AppendToken` keeps a pointer valid, for EVERY token (ill-formed bytes are replaced by U+FFFD). -/
+theorem isValid_appendToken (p t : Bytes) (hp : isValid p = true) : isValid (appendToken p t) = true :=
+  Lemmas.Pointer.isValid_appendToken p t hp
+
+example : Utf8.valid [0x61, 0xc3, 0xa9] = true := by decide
 example : isValid [0x2f, 0x61, 0x7e, 0x31] = true := by decide
 example : isValid [0x2f, 0x7e] = false := by decide
 example : isValid [0x2f, 0xff] = false := by decide
@@ -95,19 +114,30 @@ example : lastToken (appendToken [0x2f, 0x61] [0x7e, 0x2f]) = [0x7e, 0x2f] := by
 
 /-! ### appendStackPointer -/
 
-/-- Reference token of a path step as `appendStackPointer` writes it (names pass through Go's `range`). -/
-def refToken : Ref → Bytes
-  | .name n => sanitize n
-  | .index i => decimal i
+/-- **stackptr_spec** (abstract (kind, count) stack): on every state reached by a token history, for
+where ∈ {-1, 0, +1}, the pointer assembled from the stack of (kind, count) entries and the names stack is the
+rendering of the declarative path (`refToken`: names as Go's `range` reads them — the identity on well-formed
+UTF-8 by `sanitize_valid` — and indices in base 10); in particular `Names.getUnquoted` never panics. -/
+theorem stackptr_spec (hist : List Tok) (w : Int) (s : AState) (hw : w = -1 ∨ w = 0 ∨ w = 1)
+    (hrun : AState.init.run hist = some s) :
+    ∃ path, pointerOf w hist = some path ∧ appendStackPointer s [] w = some (render (path.map refToken)) :=
+  Lemmas.Pointer.stackptr_spec hist w s hw hrun
 
-/-- FULL statement (not proved here; validated by Tie B: ops `ptr sp` = `ptr spec` = the running code for
-w ∈ {-1,0,+1} after random token histories): on every state reached by a token history, the pointer assembled
-from the (kind, count) stack and the names stack is the rendering of the declarative path. -/
-def stackptr_spec_full : Prop :=
-  ∀ (hist : List Tok) (w : Int) (s : AState), (w = -1 ∨ w = 0 ∨ w = 1) → AState.init.run hist = some s →
-    ∃ path, pointerOf w hist = some path ∧ appendStackPointer s [] w = some (render (path.map refToken))
+/-- **stackptr_spec on the packed state machine** (Model/State.lean, the 64-bit `stateEntry` words tied to the
+regenerated code by slice C06) with `Names` maintained as ReadToken/WriteToken do (push on '{', replace on a
+member name, pop on '}'): same statement, for histories shorter than 2^61 tokens (the width of the counter). -/
+theorem stackptr_spec_machine (max : Nat) (hist : List Tok) (hlen : hist.length < 2^61) (w : Int)
+    (hw : w = -1 ∨ w = 0 ∨ w = 1) (s : MState) (hrun : MState.run max {} hist = .ok s) :
+    ∃ path, pointerOf w hist = some path ∧ s.appendStackPointer [] w = some (render (path.map refToken)) :=
+  Lemmas.Pointer.stackptr_spec_machine max hist hlen w hw s hrun
 
-/-- PROVED part (where = -1, any stack whose entries all have a current child — every reachable state whose innermost
+/-- Non-vacuity on the packed machine: after `{"a/b":[1,2` the three positions are "/a~1b/1", "/a~1b" … -/
+example : ∃ s, MState.run 10000 {} [.beginObj, .str [0x61, 0x2f, 0x62], .beginArr, .scalar, .scalar] = .ok s ∧
+    s.appendStackPointer [] (-1) = some [0x2f, 0x61, 0x7e, 0x31, 0x62, 0x2f, 0x31] ∧
+    s.appendStackPointer [] 0 = some [0x2f, 0x61, 0x7e, 0x31, 0x62] ∧
+    s.appendStackPointer [] 1 = some [0x2f, 0x61, 0x7e, 0x31, 0x62, 0x2f, 0x32] := ⟨_, rfl, by decide, by decide, by decide⟩
+
+/-- Building block (where = -1, any stack whose entries all have a current child — every reachable state whose innermost
 container is non-empty): the assembled pointer is `b` followed by the rendering of the member names (as read by `range`)
 and of `Length()-1` for arrays, outermost first; no panic in `Names.getUnquoted`. -/
 theorem stackptr_partial (names : List Bytes) (es : List SEntry) (od : Nat) (b : Bytes)
@@ -133,5 +163,62 @@ example : AState.init.run [.beginObj, .str [0x61, 0x2f, 0x62], .beginArr, .scala
     some ⟨[⟨false, 2⟩, ⟨true, 2⟩, ⟨false, 1⟩], [[0x61, 0x2f, 0x62]]⟩ := by decide
 example : pointerOf (-1) [.beginObj, .str [0x61, 0x2f, 0x62], .beginArr, .scalar, .scalar] =
     some [.name [0x61, 0x2f, 0x62], .index 1] := by decide
+
+/-! ### Positions on the token-path model (slice C01's Model/TokenLoop.lean) -/
+
+section Positions
+open JsonV.Model.TokenLoop JsonV.Model.Validate JsonV.Model.Wire JsonV.Lemmas.Position JsonV.Lemmas.StateRefine
+open JsonV.Spec.PDA (Kind Viable)
+
+/-- **index_spec**: after `k` successful `ReadToken` calls on `b` (fresh decoder) the machine is the one reached by the
+`k` token kinds read; they form a viable token sequence, and `StackDepth()` / `StackIndex(i)` read off the packed
+machine are those of the grammar frames computed from that history (outermost first; kind 0 at level 0). -/
+theorem index_spec (o : VOpts) (k : Nat) (hk : k < 2^61) (b : Bytes) (st : TState) (off : Nat) (rest : Bytes)
+    (h : reads o k {} b 0 = some (st, off, rest)) :
+    ∃ ks fs, ks.length = k ∧ Spec.PDA.run maxNestingDepth Spec.PDA.init ks = some fs ∧ Viable maxNestingDepth ks ∧
+      stackDepth st.m = Spec.PDA.depth fs ∧ (∀ i, stackIndex st.m i = frameIndex fs i) ∧
+      st.m.depth + ks.countP Kind.closing = 1 + ks.countP Kind.opening :=
+  (index_offset_spec o k hk b st off rest h).1
+
+/-- **offset_spec**: `InputOffset` after `k` successful reads is the length of the consumed prefix — the unread input
+is exactly `b.drop off`. -/
+theorem offset_spec (o : VOpts) (k : Nat) (hk : k < 2^61) (b : Bytes) (st : TState) (off : Nat) (rest : Bytes)
+    (h : reads o k {} b 0 = some (st, off, rest)) :
+    off ≤ b.length ∧ rest = b.drop off ∧ b = b.take off ++ rest ∧ (b.take off).length = off :=
+  (index_offset_spec o k hk b st off rest h).2
+
+/-- **err_viable (partial)**: when `ReadToken` fails after `k` tokens with relative offset `kk`, the tokens read are a
+viable token sequence and `b[off : off+kk]` holds only blanks and at most one separator — except when the error comes
+out of the LEXER of the next token (second alternative: it lies `n` bytes inside that token). -/
+theorem err_viable_partial (o : VOpts) (k : Nat) (hk : k < 2^61) (b : Bytes) (st : TState) (off : Nat) (rest : Bytes)
+    (h : reads o k {} b 0 = some (st, off, rest)) (kk : Nat) (e : Err) (herr : readToken o st rest = .err kk e) :
+    (∃ ks, ks.length = k ∧ Viable maxNestingDepth ks ∧ smRun maxNestingDepth Machine.init ks = .ok st.m) ∧
+    b.take (off + kk) = b.take off ++ (b.drop off).take kk ∧
+    (Blank ((b.drop off).take kk) ∨
+      ∃ pos n, Blank ((b.drop off).take pos) ∧ lexer o (b.drop (off + pos)) = some (n, e) ∧ e ≠ .ok ∧ kk = pos + n) :=
+  Lemmas.Position.err_viable_partial o k hk b st off rest h kk e herr
+
+/-- The excluded class is a real counterexample ON THE MODEL (finding F2 / D13, "lexed before checked"): on `{t` the
+token path reports offset 2 (unexpected EOF inside `t…`), on `{ f}` offset 3, although `{` followed by a literal is
+not a viable token sequence — the text stops being viable at offsets 1 and 2, where the value path reports it; a
+complete literal in the same position IS reported at its start. -/
+theorem f2_counterexample :
+    tokens {} [0x7b, 0x74] = (0, 2, .eof) ∧ validText {} [0x7b, 0x74] = (1, .invalidChar) ∧
+    tokens {} [0x7b, 0x20, 0x66, 0x7d] = (0, 3, .invalidChar) ∧ validText {} [0x7b, 0x20, 0x66, 0x7d] = (2, .invalidChar) ∧
+    tokens {} [0x7b, 0x74, 0x72, 0x75, 0x65] = (0, 1, .nonStringName) ∧
+    ¬ Viable maxNestingDepth [.beginObj, .lit] := by
+  refine ⟨by decide, by decide +kernel, by decide, by decide +kernel, by decide, by decide⟩
+
+/-- NOT PROVED (lexical errors in VALUE position): the part of a token before the lexer's error offset can be completed
+to a token of the same kind, so that together with `err_viable_partial` the bytes before `ByteOffset` are a viable
+prefix of JSON at byte level.  Checked by the harness tracker on mutated texts. -/
+def err_viable_lexical_full : Prop :=
+  ∀ (o : VOpts) (r : Bytes) (n : Nat) (e : Err), lexer o r = some (n, e) → e ≠ .ok → e ≠ .fuel → e ≠ .bug →
+    ∃ ext m, lexer o (r.take n ++ ext) = some (m, .ok) ∧ n ≤ m
+
+example : (reads {} 3 {} [0x7b, 0x22, 0x61, 0x22, 0x3a, 0x5b, 0x5d] 0).map (fun x => (x.2.1, stackDepth x.1.m, stackIndex x.1.m 1)) =
+    some (6, 2, some (0x7b, 2)) := by decide
+
+end Positions
 
 end JsonV.Props.C16
